@@ -205,6 +205,20 @@ def compare_glyph(ref_exact, out_cycles, tol, optimize, npoints):
                     break
             if ok:
                 return True, "tolerance" + ("_merge" if merge else ""), None
+    # the decision to merge is taken per contour by the optimiser (a run of points is "aligned"
+    # or not within the number format's precision): when every variant keeps the same number
+    # of contours, each contour may match under its own variant
+    if optimize >= 1:
+        for close_slack in (drift, 2 * drift, drift / 2):
+            rlists = [_prep_tol(src, m, 4 * unit, close_slack)
+                      for m, src in ((False, ref_exact), (True, ref_exact), (True, ref_model))]
+            glists = [_prep_tol(out_cycles, m, 4 * unit, close_slack) for m in (False, True)]
+            n = len(rlists[0])
+            if any(len(x) != n for x in rlists + glists):
+                continue
+            if all(any(R.match_cycle_tol(rl[i], gl[i], dev) is not None
+                       for rl in rlists for gl in glists) for i in range(n)):
+                return True, "tolerance_per_contour", None
     return False, "mismatch_tol", {"expected": _show([R.canon_cycle(c) for c in ref]),
                                    "got": _show([R.canon_cycle(c) for c in got]),
                                    "allowed_deviation": dev}
